@@ -183,6 +183,18 @@ func opMapping(w *World, s *Step) (string, string) {
 		note(c2.EncrKInfo.GetKeyLength())
 		note(c2.IntegKInfo.GetKeyLength())
 		note(c2.EsnInfo.GetNeedESN())
+		// the caller edits ITS OWN proposal afterwards (e.g. to offer another group); nobody else's may change
+		if len(p.DiffieHellmanGroup) > 0 && s.SpiI&1 == 1 {
+			p.DiffieHellmanGroup[0].TransformID ^= 12
+			p.EncryptionAlgorithm[0].AttributeValue = 192
+		}
+		p2, err := o.ToProposal()
+		if err != nil {
+			res.Err = err
+			return
+		}
+		note(p2.DiffieHellmanGroup[0].TransformID)
+		note(p2.EncryptionAlgorithm[0].AttributeValue)
 		note(message.IkePayloadType(uint8(s.SpiR)).String())
 		note(eap.EapAkaPrimeAttrType(uint8(s.SpiR >> 8)).String())
 		note(eap.EapType(uint8(s.SpiR >> 16)).String())
